@@ -70,6 +70,22 @@ func runC04(p *core.Prog, r *core.Report, tier string) {
 				nE++
 				ad := ds.D(call.Call.Args[len(call.Call.Args)-1])
 				ok2 := ad.Kind == "index" && ad.Args[1].Val == ia.Index
+				if al, isVar := ia.X.(*ssa.Alloc); isVar && al.Comment == "varargs" {
+					// appended form: the size is appended in the iteration that appends the same committee index
+					arg := call.Call.Args[len(call.Call.Args)-1]
+					ok2 = false
+					for _, in2 := range st.Block().Instrs {
+						st2, isSt := in2.(*ssa.Store)
+						if !isSt || st2 == st {
+							continue
+						}
+						if ia2, ok := st2.Addr.(*ssa.IndexAddr); ok {
+							if al2, ok := ia2.X.(*ssa.Alloc); ok && al2.Comment == "varargs" && (st2.Val == arg || sameExpr(st2.Val, arg, 0)) {
+								ok2 = true
+							}
+						}
+					}
+				}
 				r.Check(ok2, "C04.e", core.FnKey(f)+"|committeeSizes[i]", p.Pos(st.Pos()), "committeeSizes[i] = duty.CommitteeSize(committeeIndices[i]) with the same i",
 					"committee size stored at index "+ds.D(ia.Index).String()+" is computed for "+ad.String())
 			}
@@ -365,7 +381,11 @@ func checkArrayOrigin(p *core.Prog, r *core.Report, ds *core.Describer, f *ssa.F
 	for _, o := range origins {
 		ok := false
 		var seen []string
-		for _, ev := range core.ElemStores(o) {
+		srcs := core.ElemStores(o)
+		if len(srcs) == 0 {
+			srcs = appendedSources(o) // built by appending, one element per validator
+		}
+		for _, ev := range srcs {
 			d := ds.D(ev)
 			seen = append(seen, d.String())
 			if d.Any(func(x *core.VD) bool { return x.Kind == "index" && x.Args[0].IsCall(accessor) }) {
